@@ -56,6 +56,11 @@ func VerifTypeAddr() (base, max, shift, rng uintptr) {
 	return typeAddr.BaseTypeAddr, typeAddr.MaxTypeAddr, typeAddr.AddrShift, typeAddr.AddrRange
 }
 
+var (
+	vcGeom    [4]uintptr
+	vcGeomSet bool
+)
+
 func verifDecoder(typeptr uintptr, dec Decoder, index int) {
 	if atomic.LoadInt32(&verifCacheArmed) == 0 || dec == nil {
 		return
@@ -76,6 +81,17 @@ func verifDecoder(typeptr uintptr, dec Decoder, index int) {
 		return
 	}
 	vcStats.FastPath++
+	// the table was sized and filled with one geometry (base, max, shift, length): a lookup made
+	// with another one lands in slots that belong to other descriptors
+	if g := [4]uintptr{typeAddr.BaseTypeAddr, typeAddr.MaxTypeAddr, typeAddr.AddrShift, uintptr(len(cachedDecoder))}; !vcGeomSet {
+		vcGeom, vcGeomSet = g, true
+	} else if g != vcGeom {
+		vcStats.SlotCollision++
+		if len(vcReports) < 16 {
+			vcReports = append(vcReports, fmt.Sprintf("cache geometry (base, max, shift, slots) changed after first use: %v -> %v", vcGeom, g))
+		}
+		vcGeom = g
+	}
 	// the address-indexed table is only for descriptors inside [BaseTypeAddr, MaxTypeAddr], and a
 	// descriptor's slot is a function of its whole address
 	if typeptr < typeAddr.BaseTypeAddr || typeptr > typeAddr.MaxTypeAddr || uintptr(index) != (typeptr-typeAddr.BaseTypeAddr)>>typeAddr.AddrShift {
